@@ -318,13 +318,17 @@ impl LogState {
                             format!("redo {} ", format_thousands(self.total_lines as u64));
                         let mut tail = String::new();
                         for n in self.depth.iter().rev() {
-                            let remain = width - head.len() - tail.len();
+                            let remain = width.saturating_sub(head.len() + tail.len());
                             // always leave room for a final '... ' prefix
                             if remain < n.len() + 4 + 1 || remain <= 4 {
                                 if n.len() < 6 || remain < 6 + 1 + 4 {
                                     tail = format!("... {}", tail);
                                 } else {
-                                    let start = n.len() - (remain - 3 - 1);
+                                    // The cut may fall inside a multi-byte character.
+                                    let mut start = n.len() - (remain - 3 - 1);
+                                    while !n.is_char_boundary(start) {
+                                        start += 1;
+                                    }
                                     tail = format!("...{} {}", &n[start..], &tail);
                                 }
                                 break;
@@ -334,14 +338,8 @@ impl LogState {
                         }
                         head.push_str(&tail);
                         self.status = head;
-                        if self.status.len() > width {
-                            eprintln!(
-                                "\nOVERSIZE STATUS ({}):\n{:?}",
-                                self.status.len(),
-                                &self.status
-                            );
-                        }
-                        assert!(self.status.len() <= width);
+                        // A terminal narrower than "redo N ... " shows what fits (the
+                        // format below cuts the line at `width` characters).
                         io::stdout().flush()?;
                         eprint!("\r{:<width$.width$}\r", &self.status, width = width);
                     }
